@@ -207,3 +207,198 @@ contract(
         f"x_prime['b_prime'][i] <= {BB}[1]) else 0))",
     ],
 )
+
+
+# ======================================================================
+# layer 3: RescaleToBounds.reparameterise / inverse_reparameterise, the
+# default reparameterisation of the flow proposal, on arrays (the same real
+# bodies are executed once more with array-valued arguments: '#seq'
+# variants), without boundary inversion.  Two parameters with their own
+# bounds / offsets / rescale bounds; the per-parameter loop is unrolled by
+# the engine because the parameter lists are concrete.
+# ======================================================================
+def _w(p):
+    return f"(self.bounds['{p}'][1] - self.bounds['{p}'][0])"
+
+
+def _seq_rb(p, variant):
+    req = [f"self.bounds['{p}'][0] < self.bounds['{p}'][1]",
+           f"self._rescale_factor['{p}'] > 0"]
+    F, S, B0 = (f"self._rescale_factor['{p}']", f"self._rescale_shift['{p}']",
+                f"self.bounds['{p}'][0]")
+    contract(
+        RR, "RescaleToBounds._rescale_to_bounds", variant_name=variant,
+        props=["C07"], log_domain=True, self_shape="RescaleToBoundsRP",
+        params={"x": "Seq(Real)", "n": ("const", p)},
+        requires=req, returns="Tuple(Seq(Real),Real)",
+        ensures=["len(result[0]) == len(x)",
+                 f"forall(i, 0, len(x), result[0][i] == {F} * "
+                 f"((x[i] - {B0}) / {_w(p)}) + {S})",
+                 f"E(result[1]) == {F} / {_w(p)}",
+                 f"result[1] == LOG({F}) - LOG({_w(p)})"],
+    )
+    contract(
+        RR, "RescaleToBounds._inverse_rescale_to_bounds", variant_name=variant,
+        props=["C07"], log_domain=True, self_shape="RescaleToBoundsRP",
+        params={"x": "Seq(Real)", "n": ("const", p)},
+        requires=req, returns="Tuple(Seq(Real),Real)",
+        ensures=["len(result[0]) == len(x)",
+                 f"forall(i, 0, len(x), result[0][i] == {_w(p)} * "
+                 f"(x[i] - {S}) / {F} + {B0})",
+                 f"E(result[1]) == {_w(p)} / {F}",
+                 f"result[1] == LOG({_w(p)}) - LOG({F})"],
+    )
+
+
+D2 = "Dict(a:Real,b:Real)"
+shape("RescaleToBoundsRP", {
+    "parameters": "PyConst(['a', 'b'])",
+    "prime_parameters": "PyConst(['a_prime', 'b_prime'])",
+    "has_pre_rescaling": "Bool", "has_post_rescaling": "Bool",
+    "boundary_inversion": "PyConst(False)",
+    "offsets": D2, "_rescale_factor": D2, "_rescale_shift": D2,
+    "bounds": "Dict(a:PyList(Real,2),b:PyList(Real,2))",
+    "post_rescaling": "Fn(nessai/utils/rescaling.py:logit)",
+    "post_rescaling_inv": "Fn(nessai/utils/rescaling.py:sigmoid)",
+}, cls="RescaleToBounds")
+_seq_rb("a", "seq")
+_seq_rb("b", "seq-b")
+
+contract(
+    RS, "logit", variant_name="seq", props=["C07"], log_domain=True,
+    params={"x": "Seq(Real)", "eps": "None"},
+    requires=["forall(i, 0, len(x), 0 < x[i] and x[i] < 1)"],
+    returns="Tuple(Seq(Real),Seq(Real))",
+    ensures=["len(result[0]) == len(x) and len(result[1]) == len(x)",
+             "forall(i, 0, len(x), E(result[0][i]) == x[i] / (1 - x[i]))",
+             "forall(i, 0, len(x), E(result[1][i]) == "
+             "1 / (x[i] * (1 - x[i])))",
+             "forall(i, 0, len(x), result[1][i] == "
+             "-LOG(x[i]) - LOG(1 - x[i]))"],
+)
+contract(
+    RS, "sigmoid", variant_name="seq", props=["C07"], log_domain=True,
+    params={"x": "Seq(Real)"},
+    requires=["forall(i, 0, len(x), E(x[i]) > 0)"],
+    returns="Tuple(Seq(Real),Seq(Real))",
+    ensures=["len(result[0]) == len(x) and len(result[1]) == len(x)",
+             "forall(i, 0, len(x), result[0][i] == 1 / (1 + E(-x[i])))",
+             "forall(i, 0, len(x), 0 < result[0][i] and result[0][i] < 1)",
+             "forall(i, 0, len(x), E(result[1][i]) == "
+             "result[0][i] * (1 - result[0][i]))",
+             "forall(i, 0, len(x), result[1][i] == "
+             "LOG(result[0][i]) + LOG(1 - result[0][i]))"],
+)
+
+RP_REQ = ["len(x) == len(x_prime) and len(log_j) == len(x)",
+          "not self.has_pre_rescaling"] + [
+    f"self.bounds['{p}'][0] < self.bounds['{p}'][1] and "
+    f"self._rescale_factor['{p}'] > 0" for p in "ab"]
+
+
+def _u(p, i="i"):
+    """the point rescaled to the unit interval of the current bounds"""
+    return (f"((x['{p}'][{i}] - self.offsets['{p}'] - self.bounds['{p}'][0])"
+            f" / {_w(p)})")
+
+
+def _fwd(p):
+    return (f"self._rescale_factor['{p}'] * {_u(p)} + "
+            f"self._rescale_shift['{p}']")
+
+
+def _back(p):
+    return (f"{_w(p)} * (x_prime['{p}_prime'][i] - "
+            f"self._rescale_shift['{p}']) / self._rescale_factor['{p}'] + "
+            f"self.bounds['{p}'][0] + self.offsets['{p}']")
+
+
+JAC = " * ".join(f"(self._rescale_factor['{p}'] / {_w(p)})" for p in "ab")
+KEEP_XP = ("forall(i, 0, len(x), x_prime['logL'][i] == old(x_prime['logL'])[i]"
+           " and x_prime['logP'][i] == old(x_prime['logP'])[i])")
+KEEP_X = ("forall(i, 0, len(x), x['logL'][i] == old(x['logL'])[i]"
+          " and x['logP'][i] == old(x['logP'])[i])")
+RET = "result[0] is x and result[1] is x_prime and result[2] is log_j"
+
+contract(
+    RR, "RescaleToBounds.reparameterise", variant_name="seq", props=["C07"],
+    log_domain=True, self_shape="RescaleToBoundsRP",
+    params={"x": XS, "x_prime": XP, "log_j": "Seq(Real)",
+            "compute_radius": "Bool", "**kwargs": {}},
+    requires=RP_REQ + ["not self.has_post_rescaling"],
+    modifies=["x_prime", "log_j"], returns="Any",
+    ensures=["len(x_prime) == old(len(x_prime)) and "
+             "len(log_j) == old(len(log_j))",
+             f"forall(i, 0, len(x), x_prime['a_prime'][i] == {_fwd('a')})",
+             f"forall(i, 0, len(x), x_prime['b_prime'][i] == {_fwd('b')})",
+             KEEP_XP,
+             f"forall(i, 0, len(x), E(log_j[i]) == "
+             f"E(old(log_j)[i]) * {JAC})"],
+)
+contract(
+    RR, "RescaleToBounds.inverse_reparameterise", variant_name="seq",
+    props=["C07"], log_domain=True, self_shape="RescaleToBoundsRP",
+    params={"x": XS, "x_prime": XP, "log_j": "Seq(Real)", "**kwargs": {}},
+    requires=RP_REQ + ["not self.has_post_rescaling"],
+    modifies=["x", "log_j"], returns="Any",
+    ensures=["len(x) == old(len(x)) and len(log_j) == old(len(log_j))",
+             f"forall(i, 0, len(x), x['a'][i] == {_back('a')})",
+             f"forall(i, 0, len(x), x['b'][i] == {_back('b')})",
+             KEEP_X,
+             f"forall(i, 0, len(x), E(log_j[i]) * {JAC} == "
+             f"E(old(log_j)[i]))"],
+)
+
+# with the logit post-rescaling (rescale bounds [0, 1] are what
+# configure_post_rescaling sets for it): regular on the open box
+LG_REQ = ["self.has_post_rescaling"] + [
+    f"self._rescale_factor['{p}'] == 1 and self._rescale_shift['{p}'] == 0"
+    for p in "ab"]
+OPEN = " and ".join(f"0 < {_u(p)} and {_u(p)} < 1" for p in "ab")
+ALOG = " + ".join(f"LOG({_w(p)}) - LOG(self._rescale_factor['{p}']) + "
+                  f"LOG({_u(p)}) + LOG(1 - {_u(p)})" for p in "ab")
+LJAC = " * ".join(f"(1 / {_w(p)}) * (1 / ({_u(p)} * (1 - {_u(p)})))"
+                  for p in "ab")
+contract(
+    RR, "RescaleToBounds.reparameterise", variant_name="seq-logit",
+    props=["C07"], log_domain=True, self_shape="RescaleToBoundsRP",
+    params={"x": XS, "x_prime": XP, "log_j": "Seq(Real)",
+            "compute_radius": "Bool", "**kwargs": {}},
+    requires=RP_REQ + LG_REQ + [f"forall(i, 0, len(x), {OPEN})"],
+    modifies=["x_prime", "log_j"], returns="Any",
+    ensures=["len(x_prime) == old(len(x_prime)) and "
+             "len(log_j) == old(len(log_j))",
+             f"forall(i, 0, len(x), E(x_prime['a_prime'][i]) == "
+             f"{_u('a')} / (1 - {_u('a')}))",
+             f"forall(i, 0, len(x), E(x_prime['b_prime'][i]) == "
+             f"{_u('b')} / (1 - {_u('b')}))",
+             KEEP_XP,
+             f"forall(i, 0, len(x), E(log_j[i]) == "
+             f"E(old(log_j)[i]) * {LJAC})",
+             # the same fact additively (log space), the form the
+             # round-trip lemma composes with the inverse's clause
+             f"forall(i, 0, len(x), log_j[i] == old(log_j)[i] - ({ALOG}))"],
+)
+
+
+def _sg(p):
+    return f"(1 / (1 + E(-x_prime['{p}_prime'][i])))"
+
+
+SJAC = " * ".join(f"({_w(p)} * {_sg(p)} * (1 - {_sg(p)}))" for p in "ab")
+contract(
+    RR, "RescaleToBounds.inverse_reparameterise", variant_name="seq-logit",
+    props=["C07"], log_domain=True, self_shape="RescaleToBoundsRP",
+    params={"x": XS, "x_prime": XP, "log_j": "Seq(Real)", "**kwargs": {}},
+    requires=RP_REQ + LG_REQ + [
+        "forall(i, 0, len(x), E(x_prime['a_prime'][i]) > 0 and "
+        "E(x_prime['b_prime'][i]) > 0)"],
+    modifies=["x", "log_j"], returns="Any",
+    ensures=["len(x) == old(len(x)) and len(log_j) == old(len(log_j))"] + [
+        f"forall(i, 0, len(x), x['{p}'][i] == {_w(p)} * {_sg(p)} + "
+        f"self.bounds['{p}'][0] + self.offsets['{p}'])" for p in "ab"] + [
+        KEEP_X,
+        f"forall(i, 0, len(x), E(log_j[i]) == E(old(log_j)[i]) * {SJAC})",
+        # ... additively, as a function of the returned point
+        f"forall(i, 0, len(x), log_j[i] == old(log_j)[i] + ({ALOG}))"],
+)
